@@ -15,7 +15,7 @@ from pyvc.sval import SBytes, MRef, SOpt, SStr, Opaque, fresh, iv, BYTES, BYTEAR
 from pyvc import sval
 from pyvc.externals import xor8
 from spec import rfc6455
-from contracts.world import world, sock_is_none, wire_since
+from contracts.world import world, sock_is_none, wire_since, wire_has_close, I12, install_flag_monitor
 from contracts.frame import build_post
 
 REG.transparent(
@@ -54,16 +54,38 @@ class Write(Contract):
 
     def setup(self, ip, v):
         W = world(ip)
-        d = dict(self=W.session, data=mk(ip, T.Bytes(BYTES), 'data'))
+        st = ip.st
+        data = mk(ip, T.Bytes(BYTES), 'data')
+        st.assume(data.n >= 1, data.at(IntVal(0)) >= 0, data.at(IntVal(0)) < 256)
+        d = dict(self=W.session, data=data)
         if 'closing' in write_params():
             d['closing'] = (v == 'closing-flag')
+        st.assume(I12(st, W))
+
+        def on_sendall(ip, sock, b):
+            # C12: the flags are tested under the lock, so a frame is only sent while open
+            ip.st.oblige('C12:sendall-only-while-neither-closing-nor-closed(tested under the lock)',
+                         And(Not(ip.st.get(W.state, 'closing')), Not(ip.st.get(W.state, 'closed'))), tags=('C12', 'C08'))
+            ip.st.oblige('C11:sendall-under-the-session-lock', BoolVal(ip.st.ghost[W.lock.key]['held'] > 0), tags=('C11',))
+            ip.st.ghost['wc'] = Or(wire_has_close(ip.st), b.at(IntVal(0)) % 16 == 8)
+
+        def on_release(ip, lock):
+            # C12 monitor invariant at every release of the session lock
+            ip.st.oblige('C12:monitor@release(Close on the wire => closing or closed)', I12(ip.st, W), tags=('C12',))
+        st.ghost['sendall_hook'] = on_sendall
+        st.ghost['on_release'] = on_release
         return d
 
     def requires(self, ip, a):
         W = ip.st.ghost['W']
         g = ip.st.ghost[W.lock.key]
-        return [('lock-free-or-reentrant', BoolVal(g['held'] == 0 or g['reentrant'])),
-                ('data-is-bytes', BoolVal(ip.is_byteslike(a.data)))]
+        r = [('lock-free-or-reentrant', BoolVal(g['held'] == 0 or g['reentrant'])),
+             ('data-is-bytes', BoolVal(ip.is_byteslike(a.data)))]
+        if 'closing' in a and ip.is_byteslike(a.data):
+            b = ip.bytes_of(a.data)
+            flag = BoolVal(a.closing) if isinstance(a.closing, bool) else a.closing
+            r.append(('closing-requested-iff-the-frame-is-a-Close', Implies(b.n >= 1, flag == (b.at(IntVal(0)) % 16 == 8)), ('C12',)))
+        return r
 
     def modifies(self, ip, a):
         W = ip.st.ghost['W']
@@ -144,6 +166,8 @@ class _Send(Contract):
             out.append(('callers-buffer-untouched', beq(ip.bytes_of(a.data), old.bytes(a.data))))
         c0, c1 = old.get(W.state, 'closing'), st.get(W.state, 'closing')
         out.append(('closing-flag', Or(c1 == c0, And(iv(a.opcode) == 8, c1))))
+        # C12: the websocket is closing as soon as the lock that ordered the Close frame is released
+        out.append(('closing-once-a-Close-frame-is-on-the-wire', Implies(iv(a.opcode) == 8, c1), ('C12',)))
         return out
 
 
@@ -496,6 +520,7 @@ class SendCloseInternal(_CloseBase):
     (nothing written); a payload that cannot fit a control frame raises ValueError, nothing written"""
     def setup(self, ip, v):
         W = world(ip, session='some')
+        install_flag_monitor(ip, W)
         return dict(self=W.ws, **self.close_args(ip, v))
 
     def raises(self, ip, a, old):
@@ -510,6 +535,7 @@ class SendCloseInternal(_CloseBase):
         if st.decide(ok, 'close-sent'):
             w = mk(ip, T.Bytes(BYTES), 'wire_close')
             st.ghost.setdefault('wire_log', []).append(w)
+            st.ghost['wc'] = BoolVal(True)
             return True
         st.heap[W.state.oid].f['closing'] = old.get(W.state, 'closing')
         return False
@@ -522,7 +548,8 @@ class SendCloseInternal(_CloseBase):
         sn = sock_is_none(old.get(W.session, '_sock'))
         refused = Or(sn, old.get(W.state, 'closed'), old.get(W.state, 'closing'))
         if res is True:
-            out = [('exactly-one-frame-written', BoolVal(len(w) == 1)), ('only-when-open', Not(refused))]
+            out = [('exactly-one-frame-written', BoolVal(len(w) == 1)), ('only-when-open', Not(refused)),
+                   ('closing-once-the-Close-frame-is-on-the-wire', st.get(W.state, 'closing'), ('C12',))]
             if len(w) == 1:
                 out += close_frame_facts(ip, w[0], None if a.code is None else iv(a.code), rb)
             return out
@@ -539,6 +566,7 @@ class Close(_CloseBase):
     written, nothing changed; oversize reason -> ValueError, nothing written, state unchanged"""
     def setup(self, ip, v):
         W = world(ip, session='some')
+        install_flag_monitor(ip, W)
         return dict(self=W.ws, **self.close_args(ip, v))
 
     def modifies(self, ip, a):
